@@ -75,8 +75,12 @@ def diff(a, b, path=""):
     return None
 
 
-def roundtrip(g):
+def roundtrip(g, rest=()):
+    """rest: the pipeline stages that have not been applied to g yet - they are applied to the RE-READ graph at the end,
+    after which the source graph and the dictionary written from it must still be what they were (no shared state)"""
+    import copy
     from numba_scfg.core.datastructures.scfg import SCFG
+    from vf.oracles.hier import check_hier
 
     fails = []
 
@@ -102,6 +106,17 @@ def roundtrip(g):
     d = diff(c0, c1)
     if d:
         fail("dict-roundtrip:" + d[0], d[1])
+    # the re-read hierarchy must be as self-consistent as the one that was written (recorded parents are the
+    # containing regions, sub-graphs know their region, ...): compared through the C04 oracle, new error kinds only
+    try:
+        e0 = {e[0] for e in check_hier(g)}
+        for e in check_hier(g1):
+            if e[0] not in e0:
+                fail("reread-hierarchy:" + str(e[0]), repr(e)[:200])
+                break
+    except Exception as e:
+        fail("reread-hierarchy:" + exc_signature(e), repr(e))
+    d1_copy = copy.deepcopy(d1)
     try:
         d2 = g1.to_dict()
         if d2 != d1:
@@ -131,6 +146,21 @@ def roundtrip(g):
             fail("yaml-chain:" + dd[0], dd[1])
     except Exception as e:
         fail("yaml:" + exc_signature(e), repr(e))
+    # no state shared between the source graph, the dictionary and the re-read graph: go on restructuring the copy
+    if rest:
+        try:
+            for st in rest:
+                getattr(g1, st)()
+        except Exception:
+            pass  # C02 / C18 territory
+        try:
+            dd = diff(c0, canon(g))
+            if dd:
+                fail("source-graph-changed-by-work-on-the-reread-graph:" + dd[0], dd[1])
+            if d1 != d1_copy:
+                fail("dictionary-changed-by-work-on-the-reread-graph", [k for k in d1 if d1[k] != d1_copy.get(k)])
+        except Exception as e:
+            fail("source-graph-malformed-after-work-on-the-reread-graph:" + exc_signature(e), repr(e))
     return fails
 
 
@@ -157,7 +187,7 @@ def check(desc):
                     getattr(g, s)()
             except Exception:
                 break
-            for f in roundtrip(g):
+            for f in roundtrip(g, STAGES[k:]):
                 f["signature"] = f"s{k}:bytecode:" + f["signature"]
                 fails.append(f)
         return fails, True
@@ -172,7 +202,7 @@ def check(desc):
                 break
             if regions(g):
                 nt = True
-            for f in roundtrip(g):
+            for f in roundtrip(g, STAGES[k:]):
                 f["signature"] = f"s{k}:{payload}:" + f["signature"]
                 fails.append(f)
     return fails, nt
